@@ -80,33 +80,44 @@ def run(R):
                 R.violation("C02.convert", "extract|no-default", "an absent JSON path does not yield the declared DEFAULT", [gv[0].loc()])
             else:
                 R.ok("C02.convert", "extract|default", "DEFAULT only on the path-absent edge", def_in_none[0].loc())
-            # convert switch inside the Some region
-            csw = []
-            for (bb, s) in PR.field_reads(cpe, "convert"):
-                if isinstance(s, dict) and s.get("switch"):
-                    csw.append(bb)
+            # the CONVERT branch: in the Json arm itself or in a helper the Some edge hands the leaf to
+            CFJ = "sqlgrep::model::ValueType::convert_from_json"
+            found = []
+            for k in sorted(P.reachable([cpe])):
+                h = P.fns[k]
+                if h.kind == "Closure" or not h.spath.startswith("sqlgrep::data_model::"):
                     continue
-                l = s["pl"]["l"]
-                for sw2 in sorted(cpe.reach):
-                    t = cpe.blocks[sw2]["term"]
-                    if t["k"] == "switch" and t["discr"]["k"] in ("copy", "move") and t["discr"]["pl"]["l"] == l and not t["discr"]["pl"]["p"]:
-                        csw.append(sw2)
-            csw = [x for x in csw if x in some_reg]
-            if len(csw) != 1:
-                R.violation("C02.convert", "extract|convert-branch", "the JSON arm does not branch on options.convert", [gv[0].loc()])
+                for (sw2, tt, ft) in PR.field_bool_switches(h, "convert"):
+                    if h.key == cpe.key and sw2 not in some_reg:
+                        continue
+                    if h.key != cpe.key and not any(c.bb in some_reg and h.key in P.callee_keys(cpe, c) for c in cpe.calls):
+                        continue
+                    found.append((h, sw2, tt, ft))
+            if len(found) != 1:
+                R.violation("C02.convert", "extract|convert-branch", "the JSON leaf is not converted under exactly one branch on options.convert "
+                                                                     "(found %d)" % len(found), [gv[0].loc()])
             else:
-                t = cpe.blocks[csw[0]]["term"]
-                tr = set(b for b in cpe.reach if cpe.dominates(t["otherwise"], b))
-                fa = set(b for b in cpe.reach if cpe.dominates([b2 for v, b2 in t["targets"] if v == "0"][0], b))
-                tn = [short(c.name) for c in cpe.calls if c.bb in tr] + \
-                     [short(c.name) for x in P.children.get(cpe.key, []) for c in x.calls]
-                fn_ = [short(c.name) for c in cpe.calls if c.bb in fa]
-                if SJ + "as_str" in tn and "sqlgrep::model::ValueType::parse" in tn and "sqlgrep::model::ValueType::convert_from_json" in fn_ \
-                        and "sqlgrep::model::ValueType::convert_from_json" not in [short(c.name) for c in cpe.calls if c.bb in tr]:
-                    R.ok("C02.convert", "extract|convert", "CONVERT: as_str -> parse; otherwise convert_from_json", cpe.loc(csw[0]))
+                h, sw2, tt, ft = found[0]
+                tr = set(b for b in h.reach if h.dominates(tt, b))
+                fa = set(b for b in h.reach if h.dominates(ft, b))
+
+                def names_in(reg):
+                    out = [short(c.name) for c in h.calls if c.bb in reg]
+                    for c in h.calls:
+                        if c.bb in reg:
+                            for ck in (c.func.get("closure_args") or []):
+                                cf = P.fns.get(ck)
+                                if cf is not None:
+                                    out += [short(c2.name) for c2 in cf.calls]
+                    return out
+                tn, fn_ = names_in(tr), names_in(fa)
+                if SJ + "as_str" in tn and "sqlgrep::model::ValueType::parse" in tn and CFJ in fn_ and CFJ not in tn \
+                        and SJ + "as_str" not in fn_:
+                    R.ok("C02.convert", "extract|convert", "CONVERT: as_str -> parse; otherwise convert_from_json (in %s)" % h.spath.split("::")[-1],
+                         h.loc(sw2))
                 else:
                     R.violation("C02.convert", "extract|convert-arms", "CONVERT arms: true -> %s, false -> %s (expected as_str + ValueType::parse / "
-                                                                       "convert_from_json)" % (sorted(set(tn))[:6], sorted(set(fn_))[:6]), [cpe.loc(csw[0])])
+                                                                       "convert_from_json)" % (sorted(set(tn))[:6], sorted(set(fn_))[:6]), [h.loc(sw2)])
     # ---- path walk
     gf = R.need_fn("sqlgrep::data_model::JsonAccess::get_value")
     sws = A.enum_switches(gf, "data_model::JsonAccess")
@@ -116,41 +127,45 @@ def run(R):
         R.violation("C02.walk", "get_value|api|" + short(c.name).split("::")[-1],
                     "JsonAccess::get_value uses %s: the path must be followed step by step (object field by name, array element by index)"
                     % short(c.name), [c.loc()])
-    if not sws:
-        R.violation("C02.walk", "get_value|no-match", "JsonAccess::get_value does not match on the path step kind", [gf.loc()])
+    # the walk, decided on provenance (independent of whether it recurses or loops, and of how the arms are laid out):
+    #   every Value::get takes the String field of a Field step, under the `Field` arm;
+    #   every element lookup takes the usize field of an Array step, unmodified, on the slice that as_array() of the current value gave
+    walkers = [gf] + [P.fns[k] for k in sorted(P.reachable([gf])) if P.fns[k].spath.startswith("sqlgrep::data_model::") and P.fns[k].key != gf.key]
+    n_field = n_array = 0
+    for g in walkers:
+        for c in g.calls:
+            sn = short(c.name)
+            if sn == SJ + "get":
+                n_field += 1
+                var, ty = F.place_variant_field(F.source_place(g, c.args[1]))
+                if var == "Field" and ty == "alloc::string::String":
+                    R.ok("C02.walk", "get_value|Field", "Value::get(<name of this Field step>)", c.loc(), nontrivial=(n_field == 1))
+                else:
+                    R.violation("C02.walk", "get_value|Field", "an object step is not `json.get(name)` with the step's own name (key comes from %s)"
+                                % ((var, ty),), [c.loc()])
+            elif sn == "core::slice::<impl [T]>::get" and "serde_json::value::Value" in " ".join(c.func.get("res_targs") or c.targs):
+                n_array += 1
+                var, ty = F.place_variant_field(F.source_place(g, c.args[1]))
+                recv = [o for o in F.origins(g, c.args[0], depth=10) if o.kind == "call" and short(o.call.name) == SJ + "as_array"]
+                if var == "Array" and ty == "usize" and recv:
+                    R.ok("C02.walk", "get_value|Array", "as_array()?.get(<index of this Array step>)", c.loc(), nontrivial=(n_array == 1))
+                else:
+                    R.violation("C02.walk", "get_value|Array", "an array step is not `as_array()?.get(index)` with the step's own, unmodified index "
+                                                               "(an object with a numeric key, or another element, could be read): index from %s, "
+                                                               "receiver from as_array: %s" % ((var, ty), bool(recv)), [c.loc()])
+            elif "Index<" in sn and "serde_json" in sn:
+                R.violation("C02.walk", "get_value|index-op", "a JSON value is indexed with `[]` (yields Null instead of stopping, or panics)", [c.loc()])
+    if n_field == 0:
+        R.violation("C02.walk", "get_value|Field", "object steps are not followed with Value::get", [gf.loc()])
+    if n_array == 0:
+        R.violation("C02.walk", "get_value|Array", "array steps are not followed with as_array + get", [gf.loc()])
+    # the inner step is followed: by recursion on (inner, found value) or by a loop that re-dispatches on the step kind
+    rec = [c for c in gf.calls if short(c.name) == "sqlgrep::data_model::JsonAccess::get_value"]
+    looped = any(PR.loop_of(gf, sw) for sw in sws)
+    if rec or looped:
+        R.ok("C02.walk", "get_value|recursion", "the inner step is followed (%s)" % ("recursion" if rec else "loop over the steps"), gf.loc())
     else:
-        arms_, wild, rest = A.arms(gf, sws[0])
-        fa = arms_.get("Field")
-        aa = arms_.get("Array")
-        if fa:
-            cs = [c for c in gf.calls if c.bb in fa[1] and short(c.name) == SJ + "get"]
-            good = len(cs) == 1 and all(o.kind in ("arg", "place") and "name" in place_fields(o.place)
-                                        for o in F.origins(gf, cs[0].args[1], depth=8, through_calls=False) if o.place is not None)
-            if good and not [c for c in gf.calls if c.bb in fa[1] and short(c.name) == SJ + "as_array"]:
-                R.ok("C02.walk", "get_value|Field", "Value::get(name)", cs[0].loc())
-            else:
-                R.violation("C02.walk", "get_value|Field", "an object step is not `json.get(name)` with the step's own name", [gf.loc(fa[0])])
-        else:
-            R.violation("C02.walk", "get_value|Field", "no Field arm", [gf.loc()])
-        if aa:
-            asarr = [c for c in gf.calls if c.bb in aa[1] and short(c.name) == SJ + "as_array"]
-            gets = [c for c in gf.calls if c.bb in aa[1] and short(c.name) == "core::slice::<impl [T]>::get"]
-            good = len(asarr) == 1 and len(gets) == 1
-            if good:
-                os_ = F.origins(gf, gets[0].args[1], depth=8, through_calls=False)
-                good = bool(os_) and all(o.kind in ("arg", "place") and o.place is not None and "index" in place_fields(o.place) for o in os_)
-            if good:
-                R.ok("C02.walk", "get_value|Array", "as_array()?.get(index)", gets[0].loc())
-            else:
-                R.violation("C02.walk", "get_value|Array", "an array step is not `as_array()?.get(index)` with the step's own, unmodified index "
-                                                           "(an object with a numeric key, or another element, could be read)", [gf.loc(aa[0])])
-        else:
-            R.violation("C02.walk", "get_value|Array", "no Array arm", [gf.loc()])
-        rec = [c for c in gf.calls if short(c.name) == "sqlgrep::data_model::JsonAccess::get_value"]
-        if len(rec) >= 2:
-            R.ok("C02.walk", "get_value|recursion", "both arms recurse on the inner step", rec[0].loc())
-        else:
-            R.violation("C02.walk", "get_value|recursion", "the walk does not recurse on the inner step in both arms", [gf.loc()])
+        R.violation("C02.walk", "get_value|recursion", "the walk stops after the first step (neither recursion nor a loop over the steps)", [gf.loc()])
     # ---- totality of the per-line parse
     pin = R.need_fn("sqlgrep::data_model::ParsingInput::new")
     fs = [c for c in pin.calls if short(c.name) == "serde_json::de::from_str"]
@@ -158,15 +173,21 @@ def run(R):
         R.violation("C02.total", "ParsingInput::new|parse-count", "the line is parsed as JSON %d times (expected once)" % len(fs), [pin.loc()])
     else:
         lp = PR.loop_of(pin, fs[0].bb)
-        uo = [c for c in pin.calls if short(c.name) == "core::result::Result::unwrap_or" and c.args and
-              any(o.kind == "call" and o.call is fs[0] for o in F.origins(pin, c.args[0], depth=3))]
+        # total: the parse result is never unwrapped (a line that is not JSON must become Null, not a panic)
+        panicky = [c for c in pin.calls if re.search(r"^core::result::Result::(unwrap|expect|unwrap_unchecked|unwrap_err|expect_err)$", short(c.name))
+                   and c.args and any(o.kind == "call" and o.call is fs[0] for o in F.origins(pin, c.args[0], depth=6))]
+        consumed = [c for c in pin.calls if re.search(r"^core::result::Result::(unwrap_or|unwrap_or_else|unwrap_or_default|ok|map_or|map_or_else)$",
+                                                      short(c.name))
+                    and c.args and any(o.kind == "call" and o.call is fs[0] for o in F.origins(pin, c.args[0], depth=6))]
+        matched = PR.discr_guard(pin, fs[0], "Ok") is not None
+        uo = (consumed or matched) and not panicky
         # whether the line is parsed may depend on the table definition only, never on the text of the line
         line_args = [a for a in range(1, pin.arg_count + 1) if pin.local_ty(a) in ("&str", "&'a str", "&alloc::string::String")]
         T, sinks, _ = F.forward_taint(pin, lambda pl: pl.get("l") in line_args)
         gds = F.guards_dominating(pin, fs[0].bb)
         by_line = [gsw for gsw, lab, tgt in gds if gsw in sinks]
         if lp is not None or not uo:
-            R.violation("C02.total", "ParsingInput::new|shape", "JSON parse: in loop=%s, consumed by unwrap_or=%s" % (lp is not None, bool(uo)),
+            R.violation("C02.total", "ParsingInput::new|shape", "JSON parse: in loop=%s, result handled totally (unwrap_or / match, never unwrap)=%s" % (lp is not None, bool(uo)),
                         [fs[0].loc()])
         elif by_line:
             R.violation("C02.total", "ParsingInput::new|line-dependent",
